@@ -427,6 +427,8 @@ SESSION_RANDOM = {'quick': (60, 50), 'thorough': (600, 100)}
 
 class SessionFamily:
     fam = 'session'
+    trace = 'Trace_Session'
+    props = SESSION_PROPS
 
     def mc(self, ctx, prop):
         c = SESSION[prop]
@@ -472,13 +474,16 @@ class SessionFamily:
                '-trees', 'r_trees.ndjson', '-decls', 'r_decls.ndjson', '-scen', 'r_scen.ndjson')
         ctx.vh('run', '-trees', 'r_trees.ndjson', '-scen', 'r_scen.ndjson', '-out', 'r_rec.ndjson', '-workers', NCPU)
         rrec = os.path.join(ctx.work, 'r_rec.ndjson')
-        bad, stats, rn = ctx.validate('rv', 'Trace_Session', rrec, os.path.join(ctx.work, 'r_decls.ndjson'), SESSION_PROPS)
+        bad, stats, rn = ctx.validate('rv', self.trace, rrec, os.path.join(ctx.work, 'r_decls.ndjson'), self.props)
         return bad, stats, rn, open(rrec).read().splitlines(), open(os.path.join(ctx.work, 'r_trees.ndjson')).read().splitlines()
+
+    def config(self, prop):
+        return SESSION[prop]
 
     def run(self, ctx):
         prop = ctx.prop
-        c = SESSION[prop]
-        assumptions = [
+        c = self.config(prop)
+        assumptions = getattr(self, 'assumptions', None) or [
             'the order in which go-flags applies the sections of one file is not fixed by the documentation: an observation is accepted if it equals the specification\'s outcome for some order (C15 judges the dependence itself)',
             'string values are specified over ASCII plus the printable / non-printable samples of Quote.tla; escapes outside Quote.tla are grey (no verdict)',
             'TLC explores the bounded model exhaustively; bounds under coverage.mc_bounds',
@@ -495,7 +500,7 @@ class SessionFamily:
                     f.write(json.dumps(s) + '\n')
             rec = os.path.join(ctx.work, 'mc_rec.ndjson')
             ctx.vh('run', '-trees', cat, '-scen', scen, '-out', rec, '-workers', NCPU)
-            bad, stats, n = ctx.validate('mcv', 'Trace_Session', rec, os.path.join(d, 'catalog_decls.ndjson'), SESSION_PROPS)
+            bad, stats, n = ctx.validate('mcv', self.trace, rec, os.path.join(d, 'catalog_decls.ndjson'), self.props)
             mc_records = n
             for k, v in stats.items():
                 stats_all[k] = stats_all.get(k, 0) + v
@@ -506,14 +511,14 @@ class SessionFamily:
                 bad_all.append(('mc', i, lines[i - 1], trees, os.path.join(d, 'catalog_decls.ndjson')))
             samples += [self.sample(lines[k]) for k in (len(lines) // 3, 2 * len(lines) // 3) if lines]
             ctx.log('replayed %d TLC-enumerated scenarios on the real code: %d disagree on %s' % (n, len(bad[prop]), prop))
-        bad, stats, rn, rlines, rtrees = self.random_part(ctx, prop, c['kind'])
+        bad, stats, rn, rlines, rtrees = self.random_part(ctx, prop, c.get('kind', ''))
         for k, v in stats.items():
             stats_all[k] = stats_all.get(k, 0) + v
         drift += len(bad['DRIFT'])
         for i in bad[prop]:
             bad_all.append(('random', i, rlines[i - 1], rtrees, os.path.join(ctx.work, 'r_decls.ndjson')))
         samples += [self.sample(rlines[k]) for k in (0, len(rlines) // 2) if rlines]
-        ctx.log('validated %d recorded random sessions: %d disagree on %s; stats %s; drift %d' % (rn, len(bad[prop]), prop, stats_all, drift))
+        ctx.log('validated %d recorded random scenarios: %d disagree on %s; stats %s; drift %d' % (rn, len(bad[prop]), prop, stats_all, drift))
         return self.finish(ctx, bad_all, samples, stats_all, drift, mc_states, mc_trans, mc_records, rn, mcinfo, c['dom'], assumptions)
 
     def finish(self, ctx, bad_all, samples, stats_all, drift, mc_states, mc_trans, mc_records, rn, mcinfo, domkey, assumptions):
@@ -548,7 +553,7 @@ class SessionFamily:
             open(os.path.join(d, 'trace.ndjson'), 'w').write(line + '\n')
             shutil.copy(declsfile, os.path.join(d, 'decls.ndjson'))
             cfg = 'SPECIFICATION Spec\nCONSTANT Defects = {%s}\nINVARIANT JudgeRecord\nCHECK_DEADLOCK FALSE\nPOSTCONDITION Post\n' % ', '.join('"%s"' % x for x in kf['switch'].split('+'))
-            rc, out = ctx.tlc(d, 'Trace_Session', cfg, workers=1, timeout=600, heap='2g')
+            rc, out = ctx.tlc(d, self.trace, cfg, workers=1, timeout=600, heap='2g')
             m = re.search(r'<<\s*"VERIF-BAD",\s*"DRIFT",\s*\{([^}]*)\}\s*>>', out)
             if m is not None and m.group(1).strip() == '':
                 return kf
@@ -564,7 +569,7 @@ class SessionFamily:
         open(os.path.join(ctx.work, 's.ndjson'), 'w').write(json.dumps(rec) + '\n')
         ctx.vh('decls', '-trees', 't.ndjson', '-decls', 'd.ndjson')
         ctx.vh('run', '-trees', 't.ndjson', '-scen', 's.ndjson', '-out', 'r.ndjson', '-workers', 1)
-        bad, stats, n = ctx.validate('rp', 'Trace_Session', os.path.join(ctx.work, 'r.ndjson'), os.path.join(ctx.work, 'd.ndjson'), SESSION_PROPS)
+        bad, stats, n = ctx.validate('rp', self.trace, os.path.join(ctx.work, 'r.ndjson'), os.path.join(ctx.work, 'd.ndjson'), self.props)
         line = open(os.path.join(ctx.work, 'r.ndjson')).read().splitlines()[0]
         print(json.dumps(self.sample(line), ensure_ascii=False, indent=1))
         r = json.loads(line)
@@ -613,7 +618,7 @@ class DeterminismFamily(SessionFamily):
                     f.write(json.dumps(s) + '\n')
             rec = os.path.join(ctx.work, 'mc_rec.ndjson')
             ctx.vh('run', '-trees', cat, '-scen', scen, '-out', rec, '-workers', NCPU)
-            bad, stats, n = ctx.validate('mcv', 'Trace_Session', rec, os.path.join(d, 'catalog_decls.ndjson'), SESSION_PROPS)
+            bad, stats, n = ctx.validate('mcv', self.trace, rec, os.path.join(d, 'catalog_decls.ndjson'), self.props)
             mc_records = n
             stats_all.update(stats)
             lines = open(rec).read().splitlines()
@@ -643,6 +648,72 @@ class DeterminismFamily(SessionFamily):
         return None
 
 
+class CompletionFamily(SessionFamily):
+    fam = 'completion'
+    trace = 'Trace_Completion'
+    props = ['C18', 'C15', 'C09', 'DRIFT']
+    assumptions = [
+        'valid prefix = the parser itself (ArgParse.tla) consumes the typed words without error; a last typed option that awaits a separate argument is allowed',
+        'grey (no verdict): a partial word after the -- terminator or after a plain argument under PassAfterNonOption, unknown options passed through under IgnoreUnknown, a complete short flag (echoed back), options of a hidden group that are not themselves hidden',
+        'value completions are specified for the harness\' Completer type (cc); flags.Filename completes from the file system and is not modelled',
+    ]
+
+    def config(self, prop):
+        return dict(dom='valid')
+
+    def mc(self, ctx, prop):
+        th = ctx.tier == 'thorough'
+        d = ctx.specdir('mc')
+        cat = os.path.join(ROOT, 'catalog', 'argparse.ndjson')
+        ctx.vh('decls', '-trees', cat, '-decls', os.path.join(d, 'catalog_decls.ndjson'))
+        decls = [14, 5, 3] if th else [14]
+        mw = 3 if th else 2
+        popts = ['<<>>', '<<"HelpFlag", "PassDoubleDash">>'] + (['<<"PassDoubleDash">>'] if th else [])
+        open(os.path.join(d, 'MCrun.tla'), 'w').write('---- MODULE MCrun ----\nEXTENDS MC_Completion\nc_POptSets == {%s}\n====\n' % ', '.join(popts))
+        cfg = ('SPECIFICATION Spec\nCONSTANTS\n  Defects = {}\n  DeclIds = {%s}\n  MaxWords = %d\n  POptSets <- c_POptSets\n  Emit = TRUE\n'
+               'INVARIANTS WalkAgreesWithParser OfferedIsAccepted Sorted EmitScn\nCHECK_DEADLOCK FALSE\n' % (', '.join(map(str, decls)), mw))
+        rc, out = ctx.tlc(d, 'MCrun', cfg, workers=NCPU, timeout=3000)
+        if not ctx.tlc_ok(out):
+            raise Infra('exhaustive completion model did not complete cleanly:\n' + ctx.tlc_error_summary(out))
+        states, gen = ctx.tlc_counts(out)
+        return states, gen, parse_scn(out), d, dict(module='MC_Completion', decls=decls, maxwords=mw, popts=len(popts))
+
+    def random_part(self, ctx, prop, kind, repeat=1):
+        nt, per = (100, 100) if ctx.tier == 'quick' else (800, 150)
+        ctx.vh('gen-completion', '-seed', ctx.seed, '-ntrees', nt, '-per', per, '-trees', 'r_trees.ndjson', '-decls', 'r_decls.ndjson', '-scen', 'r_scen.ndjson')
+        ctx.vh('run', '-trees', 'r_trees.ndjson', '-scen', 'r_scen.ndjson', '-out', 'r_rec.ndjson', '-workers', NCPU)
+        rrec = os.path.join(ctx.work, 'r_rec.ndjson')
+        bad, stats, rn = ctx.validate('rv', self.trace, rrec, os.path.join(ctx.work, 'r_decls.ndjson'), self.props)
+        return bad, stats, rn, open(rrec).read().splitlines(), open(os.path.join(ctx.work, 'r_trees.ndjson')).read().splitlines()
+
+    def sample(self, line):
+        r = json.loads(line)
+        return {'decl': r['decl'], 'popts': r['popts'], 'words': [cps2s(w) for w in r['words']],
+                'real_items': [cps2s(x) for x in r.get('obs', {}).get('items', [])], 'parser_says_to_each_offered_name': r.get('obs', {}).get('accept', [])}
+
+    def run(self, ctx):
+        self.kindless = True
+        return SessionFamily.run(self, ctx)
+
+    def replay(self, ctx, path):
+        obj = json.load(open(path))
+        rec, tree = obj['record'], obj['tree']
+        tree['id'] = 1
+        rec['decl'] = 1
+        rec.pop('obs', None)
+        open(os.path.join(ctx.work, 't.ndjson'), 'w').write(json.dumps(tree) + '\n')
+        open(os.path.join(ctx.work, 's.ndjson'), 'w').write(json.dumps(rec) + '\n')
+        ctx.vh('decls', '-trees', 't.ndjson', '-decls', 'd.ndjson')
+        ctx.vh('run', '-trees', 't.ndjson', '-scen', 's.ndjson', '-out', 'r.ndjson', '-workers', 1)
+        bad, stats, n = ctx.validate('rp', self.trace, os.path.join(ctx.work, 'r.ndjson'), os.path.join(ctx.work, 'd.ndjson'), self.props)
+        print(json.dumps(self.sample(open(os.path.join(ctx.work, 'r.ndjson')).read().splitlines()[0]), ensure_ascii=False, indent=1))
+        print('judged bad for:', [p for p in bad if bad[p]])
+        if bad[ctx.prop]:
+            print('VIOLATION property=%s replay=%s' % (ctx.prop, path))
+            return 1
+        return 0
+
+
 ARGFAM = ArgParseFamily()
 PROPS = {p: ARGFAM for p in ['C01', 'C02', 'C03', 'C04', 'C06', 'C07', 'C08', 'C09', 'C10', 'C11']}
 PROPS['C20'] = ClosestFamily()
@@ -650,3 +721,4 @@ SESSFAM = SessionFamily()
 for _p in ['C05', 'C12', 'C13', 'C14']:
     PROPS[_p] = SESSFAM
 PROPS['C15'] = DeterminismFamily()
+PROPS['C18'] = CompletionFamily()
